@@ -64,7 +64,11 @@ class Agent:
         super().__init__(*args, **kwargs)
 
         self.model: Model = model
+        if model not in self._ids and getattr(model, "_last_agent_id", 0):
+            # a copied or unpickled model is a new key of _ids: continue its own id sequence
+            self._ids[model] = itertools.count(model._last_agent_id + 1)
         self.unique_id: int = next(self._ids[model])
+        model._last_agent_id = self.unique_id
         self.pos: Position | None = None
         self.model.register_agent(self)
 
